@@ -60,7 +60,15 @@ def _simple(e):
         return _simple(e.operand)
     if isinstance(e, ast.Tuple):
         return all(_simple(x) for x in e.elts)
+    if _is_full_slice_call(e):
+        return True
     return False
+
+
+def _is_full_slice_call(e):
+    """slice(None) / slice(None, None) / slice(None, None, None): the full slice written as a value"""
+    return isinstance(e, ast.Call) and isinstance(e.func, ast.Name) and e.func.id == "slice" and not e.keywords and 1 <= len(e.args) <= 3 \
+        and all(isinstance(a, ast.Constant) and a.value is None for a in e.args)
 
 
 def _strip_doc(body):
@@ -762,6 +770,13 @@ class _ConstSubst(ast.NodeTransformer):
 
     def visit_Subscript(self, node):
         node = self.generic_visit(node)
+        # x[slice(None), c] is x[:, c]
+        if isinstance(node.slice, ast.Tuple) and any(_is_full_slice_call(x) for x in node.slice.elts):
+            node.slice.elts = [ast.Slice(lower=None, upper=None, step=None) if _is_full_slice_call(x) else x for x in node.slice.elts]
+            self.changed = True
+        elif _is_full_slice_call(node.slice):
+            node.slice = ast.Slice(lower=None, upper=None, step=None)
+            self.changed = True
         if not isinstance(node.ctx, ast.Load):
             return node
         v, sl = node.value, node.slice
